@@ -357,6 +357,9 @@ fn single_player_iter<'a, const FIRST: bool>(
     );
 
     // update all infosets
+    // NOTE nodes that thread_threshold expanded but didn't hand out are still in `work`, they were
+    // covered by the traversal from the root and must not leak into the next pass
+    work.work.clear();
     work.payoffs.clear();
     chance_infosets
         .iter_mut()
